@@ -211,6 +211,16 @@ func (p *Pool) runOne(w *worker, job string) JobResult {
 func ServeWorker(handler func(job string) string) {
 	in := bufio.NewReaderSize(os.NewFile(3, "jobs"), 1<<20)
 	out := os.NewFile(4, "results")
+	// a worker whose harness process is gone (killed by a timeout) must not stay behind, least of all spinning
+	parent := os.Getppid()
+	go func() {
+		for {
+			time.Sleep(2 * time.Second)
+			if os.Getppid() != parent {
+				os.Exit(3)
+			}
+		}
+	}()
 	for {
 		line, err := in.ReadBytes('\n')
 		if err != nil {
